@@ -61,6 +61,10 @@ pub struct PeerScript {
     /// Attach through the one-way (commander) request: no output channel.
     pub one_way: bool,
     pub ops: Vec<Op>,
+    /// This peer is the remote of peer `reattach_of` coming back: it uses that peer's remote id and attaches once
+    /// the runtime has reported that remote gone (it never attaches if that does not happen).
+    #[serde(default, skip_serializing_if = "Option::is_none")]
+    pub reattach_of: Option<u32>,
 }
 
 #[derive(Debug, Clone, Serialize, Deserialize, PartialEq, Eq)]
@@ -92,6 +96,10 @@ pub struct Knobs {
     /// Values that are multiples of this make the on_event handler of `val` / `tval` fail (0 = never).
     #[serde(default)]
     pub fail_on_multiple_of: i32,
+    /// The agent configuration makes every lane transient (`AgentConfig::default_lane_config.transient`): no lane
+    /// may reach the store and every lane restarts from its default; the stores stay persistent.
+    #[serde(default)]
+    pub all_lanes_transient: bool,
     /// Start value of std's hash keys on the run's thread (iteration order of the product's HashMaps).
     #[serde(default)]
     pub hash_seed: u64,
@@ -291,6 +299,7 @@ pub fn generate(seed: u64, focus: &str, _tier: Tier) -> AgentScenario {
         tokio_seed: root.sub("tokio").next_u64(),
         hash_seed: root.sub("hash").next_u64() | 1,
         remote_host: root.sub("remote-host").chance(1, 2),
+        all_lanes_transient: (focus == "C05" || focus == "MIX") && root.sub("lanes-transient").chance(1, 6),
         fail_on_multiple_of: if focus == "C01" && root.sub("handler-fail").chance(1, 3) { 7 } else { 0 },
         persistent: focus != "C04F" && (focus == "C05" || focus == "C05F" || g.rng.chance(1, 3)),
         target_cap: *g.rng.pick(&[8u32, 16, 32, 64, 4096]),
@@ -375,7 +384,67 @@ pub fn generate(seed: u64, focus: &str, _tier: Tier) -> AgentScenario {
             attach_delay: *g.rng.pick(&[0u32, 0, 0, 5, 30]),
             one_way: false,
             ops,
+            reattach_of: None,
         });
+    }
+    // A remote that failed (it stopped reading, so a write to it fails and the runtime removes it) comes back under
+    // the same id and starts again: nothing of its earlier session may be left.
+    {
+        let mut rr = root.sub("reattach");
+        if matches!(focus, "C01" | "C02" | "C03" | "C04" | "C20" | "MIX") && rr.chance(1, 5) {
+            let mut cands: Vec<usize> = (0..peers.len()).filter(|i| peers[*i].ops.iter().any(|o| matches!(o, Op::CloseRead))).collect();
+            if cands.is_empty() && !peers.is_empty() {
+                // No remote of this scenario fails: make one stop reading in the course of its script.
+                let q = rr.usize_below(peers.len());
+                let n = peers[q].ops.len();
+                let at = if n == 0 { 0 } else { n / 3 + rr.usize_below(n - n / 3 + 1) };
+                peers[q].ops.insert(at.min(n), Op::CloseRead);
+                cands.push(q);
+            }
+            if !cands.is_empty() {
+                let q = cands[rr.usize_below(cands.len())];
+                let mut lanes: Vec<String> = peers[q].ops.iter().filter_map(|o| match o { Op::Link { lane } | Op::Sync { lane } => Some(lane.clone()), _ => None }).collect();
+                lanes.dedup();
+                if lanes.is_empty() {
+                    lanes.push("val".into());
+                }
+                let mut ops = vec![];
+                for lane in lanes.iter().take(3) {
+                    match rr.below(3) {
+                        0 => {
+                            ops.push(Op::Link { lane: lane.clone() });
+                            ops.push(Op::Sync { lane: lane.clone() });
+                        }
+                        1 => ops.push(Op::Sync { lane: lane.clone() }),
+                        _ => ops.push(Op::Link { lane: lane.clone() }),
+                    }
+                }
+                // A few commands (fresh values) keep the lanes moving during the second session.
+                for lane in lanes.iter().take(3) {
+                    for _ in 0..rr.range(0, 3) {
+                        let v = g.vals(1);
+                        match lane.as_str() {
+                            "val" | "tval" => ops.push(Op::Cmd { lane: lane.clone(), body: format!("{v}") }),
+                            "map" | "bmap" | "tmap" => ops.push(Op::Cmd { lane: lane.clone(), body: format!("@update(key:{}) {v}", g.key_off + rr.range(0, 3) as i32) }),
+                            _ => {}
+                        }
+                    }
+                }
+                let id = peers.len() as u32;
+                let (out_cap, in_cap) = (peers[q].out_cap, peers[q].in_cap);
+                peers.push(PeerScript {
+                    id,
+                    out_cap,
+                    in_cap,
+                    chunk_seed: root.sub(&format!("chunk{id}")).next_u64(),
+                    read: ReadCfg { max_chunk: 4096, stall_pm: 0, stall_max: 1, freeze_after: 0 },
+                    attach_delay: 0,
+                    one_way: false,
+                    ops,
+                    reattach_of: Some(peers[q].id),
+                });
+            }
+        }
     }
     let ending = match focus {
         "C05" => match g.rng.below(10) {
